@@ -332,6 +332,11 @@ def run(ctx, rep):
             rep.ob("R1", o["instance"], o["ok"], o["detail"], o["site"], key="R1:" + o["instance"])
     # "in any currency": the event's value AND its fees reach the matcher in pounds at the line's own month's rate (shared with
     # C08-R1); a fee left in its own currency is netted off the GBP distribution as if it were pounds (seeded change C11-s4)
+    # what the pre-pass apportions to a lot is filed under the lot's line index and read back under the line's position in the
+    # whole list (shared with C09-R5): an index that counts only the day's purchases files the adjustment under another line, so
+    # the event does not move the cost of the shares it was apportioned to (seeded change C11-s7)
+    import rules.c09 as c09
+    c09.shared_index_space(R, rep, "R6")
     import rules.c08 as c08
     from core import Report
     r2 = Report("tmp")
